@@ -1,5 +1,6 @@
 """Load a unit description, generate its Verus file from /repo's working tree, run Verus."""
 import json
+import re
 import os
 import shutil
 import subprocess
@@ -100,6 +101,41 @@ def run_unit(name, workdir, repo=REPO, variant=None, rlimit=None, threads=4, mut
         f.write(text)
     res = verus_run.run_verus(path, text, g.linemap, name, g.fn_ranges, rlimit=rlimit or unit.get("rlimit"),
                               threads=threads, extra_args=unit.get("verus_args", []))
+    # auto-recovery: an edit may introduce a new module-level `const` / `static` (e.g. a limit) that the unit does not list.
+    # If the generated file fails to compile only because such a value is unknown and an item of that name exists at the
+    # top level of one of the unit's source files, it is extracted too and Verus is run again (constants only: a new
+    # helper FUNCTION has no contract and stays an UNDECIDED).
+    for _round in range(3):
+        if not res.undecided or not res.raw_compile_errors:
+            break
+        missing = set()
+        for m, r in res.raw_compile_errors:
+            mm = re.search(r"cannot find value `([A-Za-z_]\w*)` in this scope", m)
+            if mm:
+                missing.add(mm.group(1))
+        add = []
+        files = [unit.get("file")] + [e.get("file") for e in unit["items"] if e.get("file")]
+        for nm in sorted(missing):
+            for rel in dict.fromkeys(f for f in files if f and not f.startswith("@")):
+                p_ = os.path.join(repo, rel)
+                if not os.path.exists(p_):
+                    continue
+                src = open(p_).read()
+                msk = extract.rs.mask(src)
+                for it in extract.rs.list_items(msk, 0, len(msk)):
+                    if it.kind in ("const", "static") and it.name == nm:
+                        add.append({"sel": "%s %s" % (it.kind, nm), "file": rel})
+        if not add:
+            break
+        unit = dict(unit)
+        unit["items"] = add + list(unit["items"])
+        unit.setdefault("_auto_items", []).extend(a["sel"] for a in add)
+        g = generate(unit, repo, pre_sources)
+        text = mutate(g.text) if mutate else g.text
+        with open(path, "w") as f:
+            f.write(text)
+        res = verus_run.run_verus(path, text, g.linemap, name, g.fn_ranges, rlimit=rlimit or unit.get("rlimit"),
+                                  threads=threads, extra_args=unit.get("verus_args", []))
     return unit, g, res
 
 
